@@ -191,6 +191,12 @@ package otr3
 //@   ensures [C19.itag.noinject] result == nil ==> c.injections.messages === old(c.injections.messages)
 //@   ensures [C15.accept.bound] result == nil ==> (c.theirInstanceTag == their && their >= 256 && (our == 0 || our == c.ourInstanceTag))
 
+//@ func (otrV3).parseFragmentPrefix
+//@   inline
+//@   requires c != nil
+//@   modifies c.theirInstanceTag, msglog(c), c.injections.messages, elems(c.injections.messages)
+//@   ensures [C15.frag.accept.bound,C06.frag.accept.bound] (ok && !ignore) ==> c.theirInstanceTag >= 256
+//@   ensures [C15.frag.reject.rest] !ok ==> rest === data
 //@ func (otrV3).parseMessageHeader
 //@   requires c != nil
 //@   modifies c.theirInstanceTag, msglog(c), c.injections.messages, elems(c.injections.messages)
@@ -391,6 +397,8 @@ package otr3
 //@   requires h != nil
 //@   modifies h.items, elems(h.items)
 //@   ensures [C09.used.add] len(h.items) == len(old(h.items)) + 1
+//@   ensures [C09.used.add.kept] forall i in 0..old(len(h.items)) :: h.items[i] == old(h.items[i])
+//@   ensures [C09.used.add.last] h.items[len(h.items) - 1].ourKeyID == ourKeyID && h.items[len(h.items) - 1].theirKeyID == theirKeyID && h.items[len(h.items) - 1].receivingKey === receivingMACKey
 
 //@ func (*keyManagementContext).revealMACKeys
 //@   requires k != nil
@@ -459,6 +467,7 @@ package otr3
 //@   invariant nonglobal(revKeysBytes) && c != nil
 //@   invariant be64arr(c.topHalfCtr) == old(be64(msg0, 13 + ylen(msg0)))
 //@   invariant sbaseSame(c.oldMACKeys, old(c.oldMACKeys)) || fresh(c.oldMACKeys)
+//@   exit [C04.revkeys.complete,C09.revkeys.complete,C10.revkeys.complete] len(revKeysBytes) < 20
 //@   decreases len(revKeysBytes)
 
 //@ func (dataMsg).checkSign
@@ -492,6 +501,7 @@ package otr3
 //@   modifies k.macKeyHistory.items, elems(k.macKeyHistory.items), secbs(nil)
 //@   ensures [C02.keys.err,C05.retired.keys,C04.window.keys] (result1 == nil) <==> (ourKeyID != 0 && k.ourKeyID != 0 && (ourKeyID == k.ourKeyID || ourKeyID == k.ourKeyID - 1) && theirKeyID != 0 && k.theirKeyID != 0 && (theirKeyID == k.theirKeyID || (theirKeyID == k.theirKeyID - 1 && k.theirPreviousDHPubKey != nil)))
 //@   ensures [C09.used.recorded] result1 == nil ==> len(k.macKeyHistory.items) == len(old(k.macKeyHistory.items)) + 1
+//@   ensures [C09.used.kept] forall i in 0..old(len(k.macKeyHistory.items)) :: k.macKeyHistory.items[i] == old(k.macKeyHistory.items[i])
 //@   ensures [C06.keys.reject,C19.keys.reject] result1 != nil ==> k.macKeyHistory.items === old(k.macKeyHistory.items)
 //@   ensures result1 == nil ==> (len(result0.sendingAESKey) == 16 && len(result0.receivingAESKey) == 16 && len(result0.sendingMACKey) == 20 && len(result0.receivingMACKey) == 20 && len(result0.extraKey) == 32)
 //@   ensures nonglobal(result0.sendingAESKey) && nonglobal(result0.receivingAESKey) && nonglobal(result0.sendingMACKey) && nonglobal(result0.receivingMACKey) && nonglobal(result0.extraKey)
@@ -525,7 +535,7 @@ package otr3
 //@   decreases len(msg) - nulPos
 //@ loop (*plainDataMsg).deserialize #1
 //@   invariant c != nil && nonglobal(tlvsBytes) && tlvsOK(c.tlvs)
-//@   exit [C17.plain.alltlvs,C02.plain.alltlvs] len(tlvsBytes) == 0
+//@   exit [C17.plain.alltlvs,C02.plain.alltlvs,C10.plain.alltlvs] len(tlvsBytes) == 0
 //@   decreases len(tlvsBytes)
 
 //@ func (*tlv).deserialize
@@ -693,7 +703,7 @@ package otr3
 //@   modifies anything
 //@   modifies seclog(c), msglog(c), kmcWiped(addr(c.keys)), keysWiped(addr(c.keys)), akeWiped(c.ake), akeKeysWiped(c.ake), kmcWiped(addr(c.ake.keys)), keysWiped(addr(c.ake.keys))
 //@   preserves [C01.finish.frame] c.theirKey, c.ake, c.version, c.Policies, c.ourCurrentKey, c.ourInstanceTag, c.theirInstanceTag, c.sentRevealSig, c.smp.state
-//@   ensures [C18.finish.state] c.msgState == encrypted
+//@   ensures [C18.finish.state,C03.finish.state] c.msgState == encrypted
 //@   ensures [C18.finish.event] (old(c.msgState) != encrypted ==> seclog(c) == evpush(old(seclog(c)), uint64(GoneSecure))) && (old(c.msgState) == encrypted ==> seclog(c) == evpush(old(seclog(c)), uint64(StillSecure)))
 //@   ensures [C08.finish.wipe] kmcWiped(addr(c.keys)) == old(kmcWiped(addr(c.keys))) + 1 && keysWiped(addr(c.keys)) == old(keysWiped(addr(c.keys))) + 1 && akeWiped(c.ake) == old(akeWiped(c.ake)) + 1
 //@   ensures [C08.finish.ake] c.ake.secretExponent === nil && c.ake.revealKey.c === nil && c.ake.sigKey.c === nil && c.ake.revealKey.m1 === nil && c.ake.sigKey.m1 === nil
@@ -869,6 +879,7 @@ package otr3
 //@   requires c != nil && c.ake != nil
 //@   modifies c.ake.encryptedGx, c.ake.xhashedGx
 //@   ensures [C06.commit.reject] result != nil ==> (c.ake.encryptedGx === old(c.ake.encryptedGx) && c.ake.xhashedGx === old(c.ake.xhashedGx))
+//@   ensures [C07.commit.adopt,C01.commit.adopt] result == nil ==> (within(c.ake.encryptedGx, msg) && within(c.ake.xhashedGx, msg) && len(msg) >= 8 && len(c.ake.encryptedGx) == old(int(be32(msg, 0))))
 //@ func (*Conversation).wrapMessageHeader
 //@   requires c != nil && c.version != nil
 //@   modifies c.ourInstanceTag, elems(msg)
@@ -882,6 +893,7 @@ package otr3
 //@   preserves [C07.cell.none.commit.frame,C01.none.commit.frame] c.msgState, c.theirKey, c.version, c.ourCurrentKey, c.sentRevealSig, c.keys.ourKeyID, c.keys.theirKeyID, c.Policies
 //@   ensures [C07.cell.none.commit] result2 == nil ==> (isAwRevealSig(result0) && len(result1) >= 3)
 //@   ensures [C07.cell.none.commit.err] result2 != nil ==> (isNone(result0) && result1 === nil)
+//@   ensures [C08.commit.wipe.none] akeWiped(old(c.ake)) == old(akeWiped(c.ake)) + 1 && akeKeysWiped(old(c.ake)) == old(akeKeysWiped(c.ake)) + 1
 //@   ensures [C07.inv.authStateNone.receiveDHCommitMessage] c.ake != nil && stInv(c, result0)
 
 //@ func (authStateAwaitingRevealSig).receiveDHCommitMessage
@@ -891,6 +903,7 @@ package otr3
 //@   preserves [C07.cell.awrevealsig.commit.frame,C01.awrevealsig.commit.frame] c.msgState, c.theirKey, c.version, c.ourCurrentKey, c.sentRevealSig, c.keys.ourKeyID, c.keys.theirKeyID, c.Policies, c.ake, c.ake.ourPublicValue, c.ake.secretExponent
 //@   ensures [C07.cell.awrevealsig.commit] result2 == nil ==> (isAwRevealSig(result0) && len(result1) >= 3)
 //@   ensures [C07.cell.awrevealsig.commit.err] result2 != nil ==> (isAwRevealSig(result0) && result1 === nil)
+//@   ensures [C07.cell.awrevealsig.commit.adopt] result2 == nil ==> (within(c.ake.encryptedGx, msg) && within(c.ake.xhashedGx, msg) && len(msg) >= 8)
 //@   ensures [C07.inv.authStateAwaitingRevealSig.receiveDHCommitMessage] c.ake != nil && stInv(c, result0)
 
 //@ func (authStateAwaitingDHKey).receiveDHCommitMessage
@@ -948,6 +961,7 @@ package otr3
 //@   preserves [C07.cell.base.commit.frame] c.msgState, c.theirKey, c.version, c.ourCurrentKey, c.sentRevealSig, c.keys.ourKeyID, c.keys.theirKeyID, c.Policies
 //@   ensures [C07.cell.awsig.commit] result2 == nil ==> (isAwRevealSig(result0) && len(result1) >= 3)
 //@   ensures [C07.cell.awsig.commit.err] result2 != nil ==> (isNone(result0) && result1 === nil)
+//@   ensures [C08.commit.wipe.base] akeWiped(old(c.ake)) == old(akeWiped(c.ake)) + 1 && akeKeysWiped(old(c.ake)) == old(akeKeysWiped(c.ake)) + 1
 //@   ensures [C07.inv.authStateBase.receiveDHCommitMessage] c.ake != nil && stInv(c, result0)
 
 //@ define allNonglobal(ms) = forall i in 0..len(ms) :: nonglobal(ms[i])
@@ -1123,6 +1137,7 @@ package otr3
 //@   ensures [C02.reject.state,C06.data.reject.ids,C05.reject.ids] (err != nil && !macok(nil)) ==> (c.msgState == old(c.msgState) && c.keys.ourKeyID == old(c.keys.ourKeyID) && c.keys.theirKeyID == old(c.keys.theirKeyID) && c.keys.ourCurrentDHKeys.priv === old(c.keys.ourCurrentDHKeys.priv) && c.keys.ourPreviousDHKeys.priv === old(c.keys.ourPreviousDHKeys.priv) && c.keys.theirCurrentDHPubKey == old(c.keys.theirCurrentDHPubKey) && c.keys.theirPreviousDHPubKey == old(c.keys.theirPreviousDHPubKey) && c.keys.counterHistory.counters === old(c.keys.counterHistory.counters) && c.keys.oldMACKeys === old(c.keys.oldMACKeys) && c.theirKey == old(c.theirKey) && c.smp.state == old(c.smp.state))
 
 //@   ensures [C06.data.reject.mackeys,C19.reject.nogrowth] (err != nil && !macok(nil)) ==> c.keys.macKeyHistory.items === old(c.keys.macKeyHistory.items)
+//@   ensures [C09.reject.history.count,C06.reject.history.count] (err != nil && !macok(nil)) ==> len(c.keys.macKeyHistory.items) >= old(len(c.keys.macKeyHistory.items))
 
 //@ func (*Conversation).processDataMessage
 //@   requires convOK(c) && akeInv(c)
@@ -1166,6 +1181,9 @@ package otr3
 //@ loop nextAllWhite #0
 //@   invariant forall k in 0..i :: data[k] == 32 || data[k] == 9
 
+//@ func ExtractMPI
+//@   ensures [C17.mpi.complete,C10.mpi.complete] ok <==> (len(d) >= 4 && int(be32(d, 0)) <= len(d) - 4)
+//@   ensures [C17.mpi.rest] ok ==> (mpi != nil && newPoint === d[4+int(be32(d, 0)):])
 //@ func ExtractMPIs
 //@   pure
 //@   ensures [C17.mpis.parse] result2 ==> (nonglobal(result1) && (forall k in 0..len(result1) :: result1[k] != nil))
@@ -1208,6 +1226,10 @@ package otr3
 //@   pure
 //@   ensures nonglobal(result) && bytes(result) == fpterm(pub)
 
+//@ func (smpStateBase).startAuthenticate
+//@   requires c != nil && c.version != nil && c.ourCurrentKey != nil && c.theirKey != nil && payloadNonNil(c.theirKey)
+//@   modifies c.smp.secret, c.smp.s1, c.smp.state
+//@   ensures [C12.restart.abort.first,C11.restart.abort.first] err == nil ==> (len(tlvs) == 2 && tlvs[0].tlvType == tlvTypeSMPAbort)
 //@ func (smpStateExpect1).startAuthenticate
 //@   requires c != nil && c.version != nil && c.ourCurrentKey != nil && c.theirKey != nil && payloadNonNil(c.theirKey)
 //@   modifies c.smp.secret, c.smp.s1, c.smp.state
@@ -1256,6 +1278,7 @@ package otr3
 //@   modifies msglog(c)
 //@   ensures [C16.plain.exact] err == nil && len(plain) == len(message) && (forall i in 0..len(message) :: plain[i] == old(message[i]))
 //@   ensures [C16.plain.noreply] toSend === nil
+//@   ensures [C16.plain.copy] plain === nil || fresh(plain)
 //@ func (*Conversation).receiveEncoded
 //@   preserves [C14.ctx.frame.receiveEncoded] c.fragmentationContext.currentIndex, c.fragmentationContext.currentLen, c.fragmentationContext.frag
 //@   requires convOK(c) && akeInv(c)
